@@ -28,7 +28,7 @@ def cases(tier, seed):
     cu = [D(3, True, [1, 1, 1, 1], True), D(3, False, [1, 1, 1], True, 2.0, -1.0), D(3, False, [1, 1, 1, 1, 1], True, 0.5, 0.25), D(3, True, [1, 1, 1], True, 0.1, 0.3),
           D(3, False, [1], True), D(3, True, [1, 1, 1, 1, 1, 1], True, 0.7, 0.0)]
     nu = [D(1, False, [1, 2]), D(1, True, [2, 1, 1]), D(2, False, [1, 3, 1, 2]), D(2, True, [1, 2, 1]), D(3, True, [2, 1, 2, 1]), D(3, False, [1, 1, 1, 1]),
-          D(3, False, [1, 2, 3]), D(2, True, [1, 1]), D(4, True, [1, 1, 2, 1, 1]), D(5, False, [1, 2])]
+          D(3, False, [1, 2, 3]), D(3, False, [3, 1, 2]), D(2, True, [2, 1, 3]), D(2, True, [1, 1]), D(4, True, [1, 1, 2, 1, 1]), D(5, False, [1, 2])]
     if tier == 'thorough':
         nu += [D(4, False, [2, 1]), D(5, True, [1, 1, 1, 2, 1, 1]), D(2, False, [1]), D(1, False, [1]), D(1, True, [1]), D(3, True, [1, 1, 1])]
     for fam in (cu, nu):
